@@ -12,6 +12,7 @@ mod p04;
 mod p05;
 mod p06;
 mod p07;
+mod p08;
 mod csg;
 
 use engine::*;
@@ -27,6 +28,7 @@ macro_rules! for_prop {
             "C05" => $f::<p05::P>($($arg),*),
             "C06" => $f::<p06::P>($($arg),*),
             "C07" => $f::<p07::P>($($arg),*),
+            "C08" => $f::<p08::P>($($arg),*),
             other => {
                 eprintln!("unknown property {other}");
                 std::process::exit(2)
